@@ -48,6 +48,8 @@ def connected_graph(rng, n, kind):
     if rng.random() < 0.5:
         # self-weights: an arbitrary symmetric positive-weight graph may have a non-zero diagonal
         A[np.diag_indices(n)] = rng.uniform(0.1, 1.0, n) * (rng.random(n) < 0.7)
+    # overall weight scale: the normalised Laplacian does not depend on it, so neither may the layout
+    A = A * float(rng.choice([1.0, 1.0, 1e-3, 1e-2, 30.0]))
     return scipy.sparse.csr_matrix(A), rng.normal(size=(n, 3)).astype(np.float32)
 
 
@@ -55,7 +57,7 @@ def run(ctx):
     import umap.spectral as S
     warnings.filterwarnings("ignore")
     rng = ctx.rng
-    ctx.rule = ("connected graphs from the graph stage and arbitrary symmetric positive graphs (n 6..150, dim 1..10): the Laplacian handed "
+    ctx.rule = ("connected graphs from the graph stage and arbitrary symmetric positive graphs at overall weight scales 1e-3..30 (n 6..150, dim 1..10): the Laplacian handed "
                 "to the eigen-solver (recorded by a harness-side wrapper) vs the Lean model's entries; a-posteriori eigen-check of the real "
                 "output against dense eigh (residual, orthogonality to sqrt(deg), the (j+1)-th smallest eigenvalue), skipping eigengaps "
                 "< 1e-4 and solver fallbacks; the model's argsort/selection vs numpy; disconnected graphs with component profiles "
